@@ -63,7 +63,8 @@ def _downgrade_opaque(prog: Program, res: Result) -> None:
             except Exception:
                 pass
     for f in res.findings:
-        if f.rule.startswith("R-CACHE-") or f.rule == "R-MEMO-INVALIDATE":
+        if f.rule.startswith("R-CACHE-") or f.rule == "R-MEMO-INVALIDATE" \
+                or "<decided>" in f.context:
             keep.append(f)
             continue
         if new_slots and not f.rule.endswith("-STATELESS"):
